@@ -198,6 +198,21 @@ Theorem C05_given_dict :
 Proof. exact vocab_given_dict. Qed.
 Print Assumptions C05_given_dict.
 
+(* the frequency table (_token_frequencies_, whose length is the mask index of C14) has one entry per dictionary entry,
+   learned or supplied (supplied: indices below the dictionary size) *)
+Theorem C05_frequency_table_length :
+  forall (T : Type) (eqb ltb : T -> T -> bool) (matches : T -> bool)
+         (f32div f64div : Z -> Z -> Z) (f64to32 : Z -> Z) (one64 : Z),
+  (forall a b, eqb a b = true <-> a = b) -> (forall a, ltb a a = false) ->
+  (forall a b c, ltb a b = true -> ltb b c = true -> ltb a c = true) ->
+  (forall a b, a = b \/ ltb a b = true \/ ltb b a = true) ->
+  forall (c : config T) need docs d0 d fr,
+  learn_gen T eqb ltb matches f32div f64div f64to32 one64 need c docs d0 = Ok (d, fr) ->
+  (forall d1, d0 = Some d1 -> Forall (fun i => (i < length d1)%nat) (map snd d1)) ->
+  length fr = length d.
+Proof. exact freq_table_length. Qed.
+Print Assumptions C05_frequency_table_length.
+
 (* (9) the second stage (n-grams of token indices, python tuple order) is the same construction: every theorem above
    applies to it with T := list Z; here (1) instantiated *)
 Theorem C05_ngram_kept_iff :
